@@ -46,3 +46,27 @@ PROPS['C19'] = dict(
     level_text='Unbounded theorems that length-prefixed composite keys are injective, decodable and prefix-exact for all component tuples below 256 bytes, that the whole fsm/key.go schema (prefix bytes regenerated from source) is collision-free and prefix-free, that prefix-range bounds select exactly the prefixed keys, that big-endian and inverted-version encodings preserve order; the byte-level model is compared with the real constructors on every run, and the real decoders are driven with boundary and mutated inputs under recover/watchdog.',
     level_note='Trusted: Coq kernel, translator, hand-written key model tied by correspondence. Partial: absence of panics/hangs in Go decoders is exercised (corpus + structured mutation), not proved; sign-bytes injectivity pending Proto.v.',
 )
+
+PROPS['C20'] = dict(
+    props='props/C20.v',
+    models=['Dex', 'DexCheck'],
+    harness='c20',
+    args=dict(quick=['-fn', '600', '-swap', '200', '-withdraw', '200', '-deposit', '200'],
+              thorough=['-fn', '6000', '-swap', '3000', '-withdraw', '3000', '-deposit', '3000']),
+    fingerprint_groups=['Dex'],
+    rule='(fn) the generated SafeComputeDY/SafeMulDiv/SqrtProductUint64/percent helpers evaluated in Coq and in Go on amounts from '
+         '{0,1,small,2^32,2^63,2^64-k,random}; (swap) the real HandleDexBatchOrders on a real FSM with reserves from {1,small,2^32,2^62,2^64-k,typical}, '
+         'batches of 0-7 orders and batches around the 250-order settlement cap, requested amounts exactly at / one above the computed output, '
+         'processed in the implementation\'s own pseudorandom order; (withdraw) real HandleBatchWithdraw on point tables with ghost (zero) entries, '
+         'duplicate requests for one provider, unknown providers, local and remote side; (deposit) real HandleBatchDeposit with empty and populated '
+         'point tables; distinct by literal, non-trivial: every fn/withdraw/deposit case and swap batches with at least one order',
+    modelled='hand-modelled: the loop of HandleDexBatchOrders, handleBatchWithdraw, pass 2 of handleBatchDeposit, liquidityDepositPoints, Pool.AddPoints. '
+             'Generated from source: SafeComputeDY, SafeMulDiv, SqrtProductUint64, the settlement and provider caps. NOT modelled yet: the batch '
+             'pipeline (rotation, locked/next batch, receipts from the counter chain, liveness fallback, capped-deposit eviction, IncludeSameBlockDex) '
+             'and the sell-order escrow book; the holding/escrow pool identities of the property are therefore not claimed here (partial).',
+    assumptions=['reserves and amounts below 2^64 (uint64)', 'withdraw percent within 1..100 (checkPercent in MessageDexLiquidityWithdraw.Check)',
+                 'big.Int division by zero (x = 0 and dX = 0) is excluded by the callers\' ErrInvalidLiquidityPool guard'],
+    trusted_base=['model/Dex.v is a hand-written mirror of the DEX arithmetic loops tied by the correspondence run'],
+    level_text='Unbounded theorems over the AMM formula regenerated from fsm/dex.go: output below reserve, product of reserves non-decreasing, for every batch length and order; liquidity points always sum to the pool total through deposits (shares + dust) and withdrawals, reserves are debited by exactly what is paid, no unchecked uint64 operation wraps, no request exceeds its pro-rata share even with duplicate providers. The model is run against the real handlers on every check. Partial: batch pipeline and order-book escrow identities not yet in the model.',
+    level_note='Trusted: Coq kernel, translator, hand-written mirror of the DEX loops tied by correspondence. Not covered: DEX batch rotation/liveness fallback/holding-pool identity and the sell-order escrow identity (stated in DESIGN.md as pending parts of C20).',
+)
